@@ -229,9 +229,12 @@ func hostileSnapshot(rr *core.Rand) (*stack.Snapshot, *marked) {
 		switch rr.Intn(4) {
 		case 3:
 			// a versioned module whose host, user and project@version segments carry payloads
-			c.RelSrcPath = rr.Pick([]string{"github.com/", "golang.org/x/", "gopkg.in/", "example.org/"}) + pay(false) + "/" + pay(false) + "@v1.2.3/" + pay(false) + ".go"
+			// versions: plain, pseudo-versions of the three forms, +incompatible, and versions that only look like them
+			ver := rr.Pick([]string{"v1.2.3", "v0.0.0-20200223170610-d5e6a3e2c0ae", "v1.2.3-0.20200223170610-d5e6a3e2c0ae", "v1.2.3-pre.0.20200223170610-d5e6a3e2c0ae", "v2.0.0+incompatible",
+				"v1.2.3-" + rr.Pick(htmlPayloads), "v1.2.3-experimentalbranchname", "v0.0.0-" + rr.Pick(htmlPayloads) + "-d5e6a3e2c0ae", "v0.0.0-20200223170610-", "v-", "-", rr.Pick(htmlPayloads)})
+			c.RelSrcPath = rr.Pick([]string{"github.com/", "golang.org/x/", "gopkg.in/", "example.org/"}) + pay(false) + "/" + pay(false) + "@" + ver + "/" + pay(false) + ".go"
 			if rr.Bool() {
-				c.RelSrcPath = "github.com/" + rr.Pick(htmlPayloads) + "/" + rr.Pick(htmlPayloads) + "@v1.2.3/w.go"
+				c.RelSrcPath = rr.Pick([]string{"github.com/", "golang.org/x/"}) + rr.Pick(htmlPayloads) + "/" + rr.Pick(htmlPayloads) + "@" + ver + "/w.go"
 			}
 			c.ImportPath = "github.com/" + pay(false)
 		case 0:
@@ -239,6 +242,10 @@ func hostileSnapshot(rr *core.Rand) (*stack.Snapshot, *marked) {
 			c.ImportPath = fam + pay(false)
 		case 1:
 			c.RelSrcPath = fam + "u/r/" + pay(false)
+			if rr.Chance(1, 3) {
+				// a file directly at the root of its module or tree: no directory part
+				c.RelSrcPath = rr.Pick([]string{"main.go", "server.go", pay(false) + ".go", ".go", "a"})
+			}
 		}
 		if rr.Bool() {
 			c.LocalSrcPath = rr.Pick([]string{"/local/", "/local/", "javascript:alert(1)//", ""}) + pay(true)
